@@ -147,11 +147,19 @@ class Solver(object):
                 solved_values.update(s)
                 progress = progress or (len(s) > 0)
 
+        def stack_position(k: Any) -> int:
+            # atoms are named "x_%d" / "w_%d": order by the number, not the text
+            return int(k.name[2:])
+
         x_keys = sorted(
-            (k for k in solved_values.keys() if k.name.startswith("x")), reverse=True
+            (k for k in solved_values.keys() if k.name.startswith("x")),
+            key=stack_position,
+            reverse=True,
         )
         w_keys = sorted(
-            (k for k in solved_values.keys() if k.name.startswith("w")), reverse=True
+            (k for k in solved_values.keys() if k.name.startswith("w")),
+            key=stack_position,
+            reverse=True,
         )
         solution_list = [solved_values.get(k) for k in x_keys]
         witness_list = [solved_values.get(k) for k in w_keys]
